@@ -615,6 +615,41 @@ func rulesC14(w *World, o *Out) {
 			}
 		}
 	}
+	// the valset gate holds a message back behind the *oldest* pending update: the list is in id order, so the
+	// update compared with is element 0 (or every element, in a loop), never one picked from the far end
+	if nb := w.MustFunc(o, "x/consensus/keeper/filters", "", "IsNotBlockedByValset"); nb != nil {
+		o.Analysed(w.FuncKey(nb))
+		n := 0
+		for _, b := range nb.Blocks {
+			for _, in := range b.Instrs {
+				var idx ssa.Value
+				switch x := in.(type) {
+				case *ssa.IndexAddr:
+					idx = x.Index
+				case *ssa.Index:
+					idx = x.Index
+				default:
+					continue
+				}
+				okI := false
+				switch v := idx.(type) {
+				case *ssa.Const:
+					okI = v.Int64() == 0
+				case *ssa.Phi:
+					okI = true // loop variable: every pending update is compared
+				case *ssa.BinOp:
+					// the rotated form of a range loop: index + 1
+					if _, isPhi := v.X.(*ssa.Phi); isPhi && v.Op == token.ADD {
+						okI = true
+					}
+				}
+				o.Check("C14.R3", "IsNotBlockedByValset|compares with the oldest pending update"+ordSuffix(n), okI, w.Pos(in.Pos()),
+					"the pending updates are in id order; gating on any element but the first (the newest, len-1) offers messages queued between two pending updates, and the younger update itself, ahead of the older update")
+				n++
+			}
+		}
+		o.Note("C14.R3", "IsNotBlockedByValset|element accesses", w.Pos(nb.Pos()), itoa(n))
+	}
 	// the stateful filter itself
 	if iom := w.MustFunc(o, "x/consensus/keeper/filters", "", "IsOldestMsgPerSender"); iom != nil {
 		n, nKey := 0, 0
